@@ -41,6 +41,9 @@ pub const QUERY: u64 = 38; // c h what b   (stopped()/running() on handle h)
 pub const CRASH: u64 = 39; // a            (harness cancels the loop task of a)
 pub const STREAM_CLOSE: u64 = 40; // a      (harness lets the stream of actor a end)
 
+pub const BCAST_BEGIN: u64 = 41; // a ty
+pub const TIMER_SLEEP: u64 = 42; // a k d    (timer task k of a starts sleeping d)
+
 // opk
 pub const K_SEND: u64 = 0;
 pub const K_CALL: u64 = 1;
